@@ -34,6 +34,13 @@ type SliceV struct {
 	Elem          types.Type
 }
 
+// ArrViewV: pointer to an array that aliases a window of a slice's backing
+// array (result of a slice-to-array-pointer conversion at an offset).
+type ArrViewV struct {
+	Obj    ObjID
+	Off, N int
+}
+
 type MapV struct{ Obj ObjID }
 type ChanV struct{ Obj ObjID }
 
